@@ -70,6 +70,7 @@ structure DataMsg where
   ctr : Bytes           -- the 8-byte counter field, as on the wire
   text : Bytes
   extra : Option STlv
+  oldMacs : List (Id × Id) := []   -- revealed receiving-MAC keys, named by the DH pair they derive from
 deriving DecidableEq, Repr
 
 inductive Msg where
@@ -120,6 +121,7 @@ structure Party where
   theirLast : Option Id := none
   slots : List Slot := [{}, {}, {}, {}]
   myCtr : Bytes := zeros 8       -- c.myCounter [8]byte
+  oldMacs : List (Id × Id) := []   -- c.oldMACs: receiving-MAC keys of evicted slots, to be revealed
   fs : FragSt := {}
   smpSt : Nat := 1
   secret : Option Secret := none
@@ -163,10 +165,21 @@ def Party.reset (p : Party) : Party :=
   { p with myKeyId := 0, slots := p.slots.map (fun s => { s with used := false }) }
 
 /-- `rotateDHKeys` -/
+def Slot.macKey (s : Slot) : Id × Id := (s.myDH, s.theirDH)
+
+/-- `slot.used = false; c.oldMACs = append(c.oldMACs, slot.recvMACKey...)` for every slot satisfying `f` -/
+def evictSlots (f : Slot → Bool) (ss : List Slot) : List Slot :=
+  ss.map (fun s => if s.used && f s then { s with used := false } else s)
+
+def evictedKeys (f : Slot → Bool) (ss : List Slot) : List (Id × Id) :=
+  (ss.filter (fun s => s.used && f s)).map Slot.macKey
+
 def Party.rotate (p : Party) : Party :=
-  let slots := p.slots.map (fun s => if s.used ∧ s.myKeyId = pred32 p.myKeyId then { s with used := false } else s)
+  let f := fun (s : Slot) => s.myKeyId == pred32 p.myKeyId
+  let slots := evictSlots f p.slots
+  let old := p.oldMacs ++ evictedKeys f p.slots
   let (p, k) := p.newId
-  { p with slots := slots, myLast := p.myCur, myCur := k, myKeyId := succ32 p.myKeyId }
+  { p with slots := slots, oldMacs := old, myLast := p.myCur, myCur := k, myKeyId := succ32 p.myKeyId }
 
 /-- `copy(c.digest[:], digest)` -/
 def copyDigest (old new : Bytes) : Bytes := new.take 32 ++ old.drop (min 32 new.length)
@@ -224,13 +237,29 @@ def Party.genSig (p : Party) : Party × Msg :=
 
 def findSlot (ss : List Slot) (f : Slot → Bool) : Option Nat := ss.findIdx? f
 
-/-- `calcDataKeys`: index of the slot holding the keys for (myKeyId, theirKeyId), or `none` = error -/
-def Party.calcDataKeys (p : Party) (myKid theirKid : Nat) : Option (Party × Nat) :=
+/-- key ids that `calcDataKeys` can still serve: {myKeyId, myKeyId-1} × {theirKeyId, theirKeyId-1} -/
+def inWindow (p : Party) (s : Slot) : Bool :=
+  (s.myKeyId == p.myKeyId || s.myKeyId == pred32 p.myKeyId) &&
+  (s.theirKeyId == p.theirKeyId || s.theirKeyId == pred32 p.theirKeyId)
+
+/-- the slot `calcDataKeys` writes into: the first unused one; failing that (fixed code, af2a104) the first
+    whose key ids are no longer current -/
+def Party.pickSlot (p : Party) : Option Nat :=
+  match findSlot p.slots (fun s => !s.used) with
+  | some i => some i
+  | none => findSlot p.slots (fun s => !inWindow p s)
+
+def release (ss : List Slot) (i : Nat) : List Slot := ss.set i { ss.getD i {} with used := false }
+
+/-- `calcDataKeys`: index of the slot holding the keys for (myKeyId, theirKeyId), or `none` = error.
+    The party is returned in both cases: a stale slot picked for reuse is released even when the key ids
+    then turn out to be unacceptable. -/
+def Party.calcDataKeys (p : Party) (myKid theirKid : Nat) : Party × Option Nat :=
   match findSlot p.slots (fun s => s.used && s.theirKeyId == theirKid && s.myKeyId == myKid) with
-  | some i => some (p, i)
+  | some i => (p, some i)
   | none =>
-    match findSlot p.slots (fun s => !s.used) with
-    | none => none
+    match p.pickSlot with
+    | none => (p, none)
     | some i =>
       let my : Option Id :=
         if myKid = p.myKeyId then some p.myCur
@@ -240,17 +269,17 @@ def Party.calcDataKeys (p : Party) (myKid theirKid : Nat) : Option (Party × Nat
         else if theirKid = pred32 p.theirKeyId ∧ p.theirLast.isSome then p.theirLast else none
       match my, their with
       | some m, some t =>
-        some ({ p with slots := p.slots.set i ⟨true, theirKid, myKid, m, t, zeros 8⟩ }, i)
-      | _, _ => none
+        ({ p with slots := p.slots.set i ⟨true, theirKid, myKid, m, t, zeros 8⟩ }, some i)
+      | _, _ => ({ p with slots := release p.slots i }, none)
 
 /-- `generateData(msg, extra)`; the Go code panics when `calcDataKeys` fails -/
 def Party.genData (p : Party) (text : Bytes) (extra : Option STlv) : R (Party × Msg) :=
   match p.calcDataKeys (pred32 p.myKeyId) p.theirKeyId with
-  | none => .panic
-  | some (p, i) =>
+  | (_, none) => .panic
+  | (p, some i) =>
     let s := p.slots.getD i {}
-    .ok ({ p with myCtr := incCounter p.myCtr },
-         .data ⟨pred32 p.myKeyId, p.theirKeyId, s.myDH, s.theirDH, p.myCur, p.myCtr, text, extra⟩)
+    .ok ({ p with myCtr := incCounter p.myCtr, oldMacs := [] },
+         .data ⟨pred32 p.myKeyId, p.theirKeyId, s.myDH, s.theirDH, p.myCur, p.myCtr, text, extra, p.oldMacs⟩)
 
 /-! ### SMP -/
 
@@ -271,7 +300,7 @@ def Party.procSMP (p : Party) (t : SmpIn) : Party × SmpOut :=
     ((p.resetSMP), { err := if p.smpSt ≠ 1 then .failure else .none })
   else
   if t.typ = 7 ∧ !t.qOk then (p, { err := .generic }) else
-  let p := if t.typ = 7 then { p with question := t.question } else p
+  let p := { p with question := if t.typ = 7 then t.question else p.question }
   if !t.parseOk then (p, { err := .generic }) else
   if t.typ = 2 ∨ t.typ = 7 then
     if p.smpSt ≠ 1 then (p.resetSMP, { reply := some .abort })
@@ -391,8 +420,9 @@ def Party.acceptData (p : Party) (i : Nat) (d : DataMsg) : R (Party × Out) :=
   let p := if d.rkid = p.myKeyId then p.rotate else p
   let p :=
     if d.skid = p.theirKeyId then
-      let slots := p.slots.map (fun s => if s.used ∧ s.theirKeyId = pred32 d.skid then { s with used := false } else s)
-      { p with slots := slots, theirLast := some p.theirCur, theirKeyId := succ32 p.theirKeyId, theirCur := d.next }
+      let f := fun (s : Slot) => s.theirKeyId == pred32 d.skid
+      { p with slots := evictSlots f p.slots, oldMacs := p.oldMacs ++ evictedKeys f p.slots,
+               theirLast := some p.theirCur, theirKeyId := succ32 p.theirKeyId, theirCur := d.next }
     else p
   match d.extra with
   | some st =>
@@ -507,8 +537,8 @@ def Party.recv (p : Party) : In → R (Party × Out)
     if p.st ≠ .enc then .ok (p, errOut) else
     if !ok then .ok (p, { enc := true, err := true }) else
     match p.calcDataKeys rkid skid with
-    | none => .ok (p, { enc := true, err := !ignoreErr })
-    | some (p, i) =>
+    | (p, none) => .ok (p, { enc := true, err := !ignoreErr })
+    | (p, some i) =>
       let s := p.slots.getD i {}
       match g with
       | none => .ok (p, { enc := true, err := !ignoreErr })       -- MAC mismatch
@@ -682,6 +712,7 @@ inductive Step where
   | send (fromA : Bool) (text : Bytes)
   | endc (onA : Bool)
   | auth (onA : Bool) (q s : Bytes)
+  | inject (toA : Bool) (b dg : Bytes)  -- bytes from the network attacker (dg: digest oracle if it is a query)
 deriving DecidableEq, Repr
 
 inductive Obs where
@@ -721,6 +752,10 @@ def World.step (w : World) : Step → R (World × Obs)
     match (w.party isA).authenticate q s with
     | .panic => .panic
     | .ok (p, o) => .ok (w.put isA p o.send, .api o (p.st == .enc))
+  | .inject isA b dg =>
+    match (w.party isA).recvBytes { qdg := dg } b with
+    | .panic => .panic
+    | .ok (p, o) => .ok (w.put isA p o.send, .recv o (p.st == .enc) p.question)
 
 /-- run a script; a panic ends it (`none` at the end of the observation list) -/
 def World.run (w : World) : List Step → List (Option Obs)
